@@ -228,6 +228,62 @@ def oracle_counter(case, rec):
 
 
 @st.composite
+def long_stream_case(draw):
+    """Streams with more than 8192 distinct items and batches of 1024-3000 items (production-size use of one sketch)."""
+    return {'depth': draw(st.integers(1, 8)), 'width': draw(st.sampled_from([2000, 4096, 32768, 1000, 32768])),
+            'seed': draw(st.integers(0, 2 ** 32 - 1)), 'distinct': draw(st.integers(9000, 15000)),
+            'kinds': draw(st.sampled_from(['int', 'str', 'mixed'])), 'phases': draw(st.integers(6, 10)),
+            'batch': draw(st.sampled_from([1024, 1500, 3000])), 'delta': draw(st.integers(1, 3))}
+
+
+def oracle_long_stream(case, rec):
+    import numpy as np
+    rng = np.random.Generator(np.random.PCG64(int(case['seed'])))
+    np.random.seed(int(case['seed']) % (2 ** 32))
+    sk = CountMinSketch(depth=int(case['depth']), width=int(case['width']))
+    D = int(case['distinct'])
+
+    def item(i):
+        if case['kinds'] == 'int' or (case['kinds'] == 'mixed' and i % 2):
+            return int(i * 7919 - 4_000_000)
+        return f'campaign_{i}'
+    true, total = Counter(), 0
+    heavy = [item(i) for i in range(0, D, max(1, D // 20))]
+    per_phase = D // int(case['phases'])
+    for ph in range(int(case['phases'])):
+        lo, hi = ph * per_phase, min(D, (ph + 1) * per_phase)
+        fresh = [item(i) for i in range(lo, hi)]
+        if ph % 2 == 0:
+            for x in fresh + heavy:
+                sk.add(x, 1)
+                true[_ukey(x)] += 1
+                total += 1
+        else:
+            b = int(case['batch'])
+            stream = fresh + heavy * 3
+            for a in range(0, len(stream), b):
+                chunk = stream[a:a + b]
+                sk.batch_add(chunk, int(case['delta']))
+                for x in chunk:
+                    true[_ukey(x)] += int(case['delta'])
+                total += int(case['delta']) * len(chunk)
+        probe = heavy + fresh[:60] + [item(int(i)) for i in rng.integers(0, hi, size=150)]
+        where = f'after phase {ph + 1} ({hi} distinct items, total weight {total}, depth {case["depth"]}, width {case["width"]})'
+        for x in probe:
+            q = int(sk.query(x))
+            t = true[_ukey(x)]
+            if q < t:
+                raise Violation(f'{where}: query({x!r}) = {q} is below the true accumulated weight {t}', kind='C15/cms-lower')
+            if q > total:
+                raise Violation(f'{where}: query({x!r}) = {q} exceeds the total weight {total}', kind='C15/cms-upper')
+        sums = sk.get_matrix().sum(axis=1).tolist()
+        if any(int(v) != total for v in sums):
+            raise Violation(f'{where}: row sums {sums[:4]} differ from the total weight {total}', kind='C15/cms-rows')
+    rec.nt(True, key=case)
+    rec.cls('long-stream:' + case['kinds'])
+
+
+@st.composite
 def counter_big_case(draw):
     """Bounds around and beyond CPython's small-int cache (256) up to the production default, with streams that exceed them."""
     bound = draw(st.sampled_from([100, 255, 256, 257, 258, 300, 1000, 4096, 30000]))
@@ -264,7 +320,7 @@ def oracle_counter_big(case, rec):
     rec.cls('bound>256' if bound > 256 else 'bound<=256', 'big-stream-exceeds-bound' if distinct > bound else 'big-stream-within-bound')
 
 
-ORACLES = {'C15/bounded-counter-big': oracle_counter_big, 'C15/count-min': oracle_cms, 'C15/cms-lower': oracle_cms, 'C15/cms-upper': oracle_cms,
+ORACLES = {'C15/long-stream': oracle_long_stream, 'C15/bounded-counter-big': oracle_counter_big, 'C15/count-min': oracle_cms, 'C15/cms-lower': oracle_cms, 'C15/cms-upper': oracle_cms,
            'C15/cms-rows': oracle_cms, 'C15/cms-query-pure': oracle_cms,
            'C15/bounded-counter': oracle_counter, 'C15/counter-size': oracle_counter,
            'C15/counter-overcount': oracle_counter, 'C15/counter-exact': oracle_counter}
@@ -287,6 +343,7 @@ def run(ctx):
     _warm_up()
     clauses = [
         Clause('C15/count-min', cms_case, oracle_cms, quick=4000, thorough=120000, quick_shards=8, thorough_shards=16),
+        Clause('C15/long-stream', long_stream_case, oracle_long_stream, quick=8, thorough=240, quick_shards=8, thorough_shards=16),
         Clause('C15/bounded-counter-big', counter_big_case, oracle_counter_big, quick=60, thorough=2000, quick_shards=4),
         Clause('C15/bounded-counter', counter_case, oracle_counter, quick=2400, thorough=80000, quick_shards=4,
                thorough_shards=16),
